@@ -47,6 +47,21 @@ def handleName : List String → Option String
     let pad ← pad.toNat?
     let ns ← names.mapM parseName
     some (renderScript pad ns)
+  | ["n.towiref", pad, prev, a, o, c, cmp] => do
+    let pad ← pad.toNat?
+    let prev ← parseOptName prev
+    let n ← parseName a
+    let o ← parseOptName o
+    let c ← parseBool c
+    let cmp ← parseBool cmp
+    let out0 := List.replicate pad 0
+    let (out1, t1) := match prev, cmp with
+      | some p, true => toWireCLoop out0 [] p
+      | _, _ => (out0, [])
+    some (match toWireF out1 (if cmp then some t1 else none) n o c with
+      | .ok (b, t) =>
+        "ok " ++ toHexP (b.drop pad) ++ " tbl=" ++ ";".intercalate ((t.getD []).map fun p => showName (lowerName p.1) ++ "@" ++ toString p.2)
+      | .error e => "err " ++ e.toString)
   | ["n.concat", a, b] => do
     let a ← parseName a; let b ← parseName b
     some (exceptName (concatenate a b))
